@@ -1,0 +1,48 @@
+//go:build verif
+
+// Contracts for govc (see /verif/DESIGN.md). Comment-only; compiled only with -tags verif.
+
+package base
+
+//@ property C12 C07 C09
+
+// nfields: number of fields of the records this allocator hands out (= schema.maxFields at construction; ghost because
+// the value is captured in the pool's New closure)
+//@ ghost field LogAllocator.nfields int
+//@ pure func poolnf(p *sync.Pool) int
+
+// clean(r): a record as it sits in the pool — nothing of a previous record is left (C12)
+//@ pure func timezero(t time.Time) bool := t.wall == 0 && t.ext == 0 && t.loc == nil
+//@ pure func clean(r *LogRecord) bool :=
+//@     (forall i int :: 0 <= i && i < len(r.Fields) ==> len(r.Fields[i]) == 0)
+//@  && r.RawLength == 0 && timezero(r.Timestamp) && r._backbuf == nil && r._refCount == 0
+//@ pure func allocok(a *LogAllocator) bool :=
+//@     a != nil && a.recordPool != nil && util.poolsok(a.backbufPools) && poolnf(a.recordPool) == a.nfields && a.nfields >= 0
+
+// trusted: sync.Pool hands out New() or a value previously Put, exclusively. For the record pool of a LogAllocator every
+// such value is a clean record with the allocator's number of fields (New = newLogRecord; Put only in recycleRecord).
+//@ fieldspec LogAllocator.recordPool.Get(p *sync.Pool) any
+//@   ensures typeis(result, *LogRecord) && as(result, *LogRecord) != nil && clean(as(result, *LogRecord))
+//@   ensures len(as(result, *LogRecord).Fields) == poolnf(p)
+//@ fieldspec LogAllocator.recordPool.Put(p *sync.Pool, x any)
+//@   requires typeis(x, *LogRecord) && as(x, *LogRecord) != nil && clean(as(x, *LogRecord)) && len(as(x, *LogRecord).Fields) == poolnf(p)
+
+//@ func newLogRecord(maxFields int) *LogRecord
+//@   requires maxFields >= 0
+//@   ensures  result != nil && isfresh(result) && clean(result) && len(result.Fields) == maxFields
+
+//@ func (alloc *LogAllocator) NewRecord(input []byte) (*LogRecord, util.MutableString)
+//@   requires allocok(alloc) && len(input) < 2147483648
+//@   modifies LogRecord._refCount, LogRecord._backbuf, mem(byte)
+//@   ensures  result.0 != nil && len(result.0.Fields) == alloc.nfields
+//@   ensures[fields-empty] forall i int :: 0 <= i && i < len(result.0.Fields) ==> len(result.0.Fields[i]) == 0
+//@   ensures  result.0.RawLength == 0 && timezero(result.0.Timestamp) && result.0._refCount == alloc.initialRefCount
+//@   ensures[copy-of-input] len(result.1) == len(input) && writable(result.1) && forall i int :: 0 <= i && i < len(input) ==> result.1[i] == old(input[i])
+
+//@ func (alloc *LogAllocator) Release(record *LogRecord)
+//@   requires allocok(alloc) && record != nil && record._refCount >= 1 && len(record.Fields) == alloc.nfields
+//@   requires record._backbuf != nil ==> exists k int :: 0 <= k && k < 32 && len(*record._backbuf) == util.pow2(k)
+//@   modifies record._refCount, record.RawLength, record.Timestamp, record._backbuf, record.Fields[:]
+//@   ensures  record._refCount == old(record._refCount) - 1
+//@   ensures  old(record._refCount) > 1 ==> unchanged(record.RawLength, record.Timestamp, record._backbuf)
+//@   loop 1: invariant -1 <= rangeindex && rangeindex < len(record.Fields) && forall j int :: 0 <= j && j <= rangeindex ==> len(record.Fields[j]) == 0
